@@ -154,12 +154,20 @@ using HostStorage = BIHTreeData<Ownership::value, MemSpace::host>;
 using RefStorage = BIHTreeData<Ownership::const_reference, MemSpace::host>;
 
 // Dump the tree exactly as stored (node ids as the traverser sees them: inner first)
-json tree_record(BIHTree const& tree, RefStorage const& st, std::size_t nboxes, int k)
+json tree_record(BIHTree const& tree, RefStorage const& st, Config const& input, int k)
 {
     bool exact = true;
+    std::size_t const nboxes = input.size();
     json rec;
     rec["e"] = "Build";
     rec["k"] = k;
+    {
+        // the argument of the call (as converted to FastBBox)
+        json in = json::array();
+        for (auto const& b : input)
+            in.push_back(box_json(to_bbox(b), &exact));
+        rec["in"] = in;
+    }
     json boxes = json::array();
     for (std::size_t v = 0; v < nboxes; ++v)
     {
@@ -269,7 +277,7 @@ void run_batch(std::vector<Config> const& confs,
     for (std::size_t i = 0; i < confs.size(); ++i)
     {
         int k = first_k + static_cast<int>(i);
-        w(tree_record(trees[i], ref, confs[i].size(), k));
+        w(tree_record(trees[i], ref, confs[i], k));
         for (auto const& p : pts[i])
             w(find_record(trees[i], ref, p, masks[i], k));
     }
